@@ -107,6 +107,12 @@ impl<K: Copy + Ord, V> PriorityQueue<K, V> {
 
         Some((key, value))
     }
+
+    /// Iterates over all entries in arbitrary order (verification only).
+    #[cfg(nexosim_verif)]
+    pub(crate) fn verif_iter(&self) -> impl Iterator<Item = (&K, &V)> {
+        self.heap.iter().map(|item| (&item.key, &item.value))
+    }
 }
 
 #[cfg(all(test, not(nexosim_loom)))]
